@@ -80,3 +80,29 @@ def distinct_nontrivial(outs, pred):
                 # images are referenced by path; hash the answer too so distinct images count once each
                 seen.add(hashlib.sha1((op.split(" /dev/shm")[0] + "|" + im).encode()).digest())
     return len(seen)
+
+
+def rep_lines(ctx, outs, cov, what_for):
+    """judge the `repfile` / `reptiled` lines of fmt runs: the device file as the real store left it (after a flush and
+    a clean close, or after a successful recovery with its repairs) must represent a tiling of its data area by exactly
+    the store's own index (Lean decision Fmt.repTiledB; Fmt.repTiled_sound says what a `true` means for the recovery
+    scan).  A `rt=0` is a property-level failure with the file as the failing input: a stale but valid record left on the
+    device (it resurfaces once its successor is gone), a live record under a marker's span, a block owned twice."""
+    n = bad = 0
+    for o in outs:
+        if "crash" in o:
+            continue
+        for op, im, mo in zip(o.get("ops", []), o.get("impl", []), o.get("model", [])):
+            if not (op.startswith("fmt repfile") or op.startswith("fmt reptiled")):
+                continue
+            n += 1
+            if im == mo:
+                continue
+            bad += 1
+            if bad <= 2:
+                kept = save_case(ctx, op, "rep%d" % bad)
+                _, why = classify(op, im, mo)
+                violation(ctx, "%s: %s" % (what_for, why), "%s\n# expected: %s\n# Lean decision on the file: %s\n" % (kept[:3000], im, mo), tag="rep")
+    cov["device_files_checked_for_tiling_by_index"] = cov.get("device_files_checked_for_tiling_by_index", 0) + n
+    cov["device_files_not_tiled_by_index"] = cov.get("device_files_not_tiled_by_index", 0) + bad
+    ctx.log("tiling-by-index stage: %d device files, %d not tiled by the store's own index" % (n, bad))
